@@ -232,6 +232,10 @@ void SSA::build_bwt() {
     uint j = 0;
     uint *sampled_vector = new uint[uint_len(n + 2, 1)];
     suff_sample = new uint[(n + 1) / samplesuff + 1];
+    // The array may hold one entry more than there are samples and is saved
+    // as a whole
+    for (uint i = 0; i < (n + 1) / samplesuff + 1; i++)
+      suff_sample[i] = 0;
     for (uint i = 0; i < uint_len(n + 1, 1); i++)
       sampled_vector[i] = 0;
     for (uint i = 0; i < n + 1; i++) {
